@@ -77,3 +77,32 @@ Lemma tie_safe_addrparse : forall (arg lh : Bytes.bytes) (addr0 : list Z) (len0 
   bytes_ok arg -> ~ In 0%N arg -> Z.of_nat (length arg) < 2 ^ 31 -> bytes_ok lh -> Z.of_nat (length lh) < 2 ^ 31 ->
   option_map (fun r => K_addrparse.v__oob (snd r)) (K_addrparse.run (S (S (length arg))) (zs arg ++ (0 :: nil)) 0 addr0 len0 ok ipme (zs lh) (Z.of_nat (length lh))) = Some 0.
 Proof. exact Gen_addrparse.safe_addrparse. Qed.
+(* the output side of substdio as generated from today's substdo.c simulates Mem/Substdio.v: from any C state that represents a
+   model state (Gen_substdio.Rep: the buffer holds the pending bytes, the oracle has answered what the model's script says, the
+   descriptor has received o_out), each operation returns what the model returns and ends in a C state that represents the
+   model's next state - for every script of short writes, EINTR and errors.  Mem/SubstdioProofs.v's stream theorem (the descriptor
+   receives exactly the concatenation of the data of the successful operations, in order) is therefore a theorem about the translation
+   of today's code; and the checked variants of put/bput never leave the buffer or the data *)
+From NQ Require Mem.Substdio Tie.Gen_substdio.
+Lemma tie_generated_substdio_put : forall b x p fd script n out fuel data, Gen_substdio.Rep b x p script n out -> Gen_substdio.good b data -> Gen_substdio.enough fuel b script data ->
+  exists v st, C_substdio_put.run fuel x (Z.of_nat (Substdio.o_cap b)) p fd (zs data) 0 (Z.of_nat (length data)) script out n = Some (v, st) /\ v = Gen_substdio.ret (fst (Substdio.o_put b data)) /\
+    Gen_substdio.Rep (snd (Substdio.o_put b data)) (C_substdio_put.a_s__x st) (C_substdio_put.v_s__p st) script (C_substdio_put.v_wr__n st) (C_substdio_put.a_wr__out st).
+Proof. exact Gen_substdio.gen_substdio_put_sim. Qed.
+Lemma tie_generated_substdio_bput : forall b x p fd script n out fuel data, Gen_substdio.Rep b x p script n out -> Gen_substdio.good b data -> Gen_substdio.enough fuel b script data ->
+  exists v st, C_substdio_bput.run fuel x (Z.of_nat (Substdio.o_cap b)) p fd (zs data) 0 (Z.of_nat (length data)) script out n = Some (v, st) /\ v = Gen_substdio.ret (fst (Substdio.o_bput b data)) /\
+    Gen_substdio.Rep (snd (Substdio.o_bput b data)) (C_substdio_bput.a_s__x st) (C_substdio_bput.v_s__p st) script (C_substdio_bput.v_wr__n st) (C_substdio_bput.a_wr__out st).
+Proof. exact Gen_substdio.gen_substdio_bput_sim. Qed.
+Lemma tie_generated_substdio_flush : forall b x p fd script n out fuel, Gen_substdio.Rep b x p script n out -> Gen_substdio.good b nil -> Gen_substdio.enough fuel b script nil ->
+  exists v st, C_substdio_flush.run fuel x p fd script out n = Some (v, st) /\ v = Gen_substdio.ret (fst (Substdio.o_flush b)) /\
+    Gen_substdio.Rep (snd (Substdio.o_flush b)) (C_substdio_flush.a_s__x st) (C_substdio_flush.v_s__p st) script (C_substdio_flush.v_wr__n st) (C_substdio_flush.a_wr__out st).
+Proof. exact Gen_substdio.gen_substdio_flush_sim. Qed.
+Lemma tie_generated_substdio_putflush : forall b x p fd script n out fuel data, Gen_substdio.Rep b x p script n out -> Gen_substdio.good b data -> Gen_substdio.enough fuel b script data ->
+  exists v st, C_substdio_putflush.run fuel x p fd (zs data) 0 (Z.of_nat (length data)) script out n = Some (v, st) /\ v = Gen_substdio.ret (fst (Substdio.o_putflush b data)) /\
+    Gen_substdio.Rep (snd (Substdio.o_putflush b data)) (C_substdio_putflush.a_s__x st) (C_substdio_putflush.v_s__p st) script (C_substdio_putflush.v_wr__n st) (C_substdio_putflush.a_wr__out st).
+Proof. exact Gen_substdio.gen_substdio_putflush_sim. Qed.
+Lemma tie_safe_substdio_put : forall b x p fd script n out fuel data, Gen_substdio.Rep b x p script n out -> Gen_substdio.good b data -> Gen_substdio.enough fuel b script data ->
+  option_map (fun r => K_substdio_put.v__oob (snd r)) (K_substdio_put.run fuel x (Z.of_nat (Substdio.o_cap b)) p fd (zs data) 0 (Z.of_nat (length data)) script out n) = Some 0.
+Proof. exact Gen_substdio.safe_substdio_put. Qed.
+Lemma tie_safe_substdio_bput : forall b x p fd script n out fuel data, Gen_substdio.Rep b x p script n out -> Gen_substdio.good b data -> Gen_substdio.enough fuel b script data ->
+  option_map (fun r => K_substdio_bput.v__oob (snd r)) (K_substdio_bput.run fuel x (Z.of_nat (Substdio.o_cap b)) p fd (zs data) 0 (Z.of_nat (length data)) script out n) = Some 0.
+Proof. exact Gen_substdio.safe_substdio_bput. Qed.
